@@ -214,7 +214,7 @@ pub fn render_module(m: &GModule) -> String {
     return "{ \"a\": 1 }".to_string();
   }
   if m.media == Media::Unknown {
-    return "plain text, not a module".to_string();
+    return "\"plain text, not a module\";".to_string();
   }
   let mut s = String::new();
   // leading pragmas first
@@ -838,6 +838,111 @@ impl Default for GenCfg {
 /// listed in DESIGN (a JSON target is reached either always with the json
 /// attribute or never).
 pub fn gen_world(rng: &mut Rng, cfg: &GenCfg) -> GWorld {
+  for _ in 0..50 {
+    let w = gen_world_once(rng, cfg);
+    if !has_context_conflict(&w) {
+      return w;
+    }
+  }
+  panic!("generator could not produce a conflict-free world");
+}
+
+/// The class of a JSON / unknown-media entry depends on the context of the
+/// *first* request that reaches it (root or dynamic branch: lenient; plain
+/// static import: error). A world in which such an entry is reachable both in
+/// a lenient and in a strict context has an order-dependent answer, which the
+/// properties do not cover (same idea as the `type` attribute proviso), so
+/// the generator rejects it.
+pub fn has_context_conflict(w: &GWorld) -> bool {
+  let r = w.resolver.as_ref();
+  let final_of = |start: &str| -> Option<&GModule> {
+    let mut cur = url(start).to_string();
+    for _ in 0..16 {
+      let m = w.get(&cur)?;
+      match &m.serve {
+        Serve::Redirect(t) => cur = url(t).to_string(),
+        _ => return Some(m),
+      }
+    }
+    None
+  };
+  let sensitive =
+    |m: &GModule| matches!(m.media, Media::Json | Media::Unknown) && matches!(m.serve, Serve::Module | Serve::ModuleOtherFinal(_));
+  let mut lenient: BTreeSet<String> = BTreeSet::new();
+  let mut strict: BTreeSet<String> = BTreeSet::new();
+  // the `type` attribute proviso itself: one JSON target imported both with
+  // and without the attribute (e.g. through a redirect head or a pragma)
+  let mut with_attr: BTreeSet<String> = BTreeSet::new();
+  let mut without_attr: BTreeSet<String> = BTreeSet::new();
+  for root in &w.roots {
+    if let Some(m) = final_of(root)
+      && sensitive(m)
+    {
+      lenient.insert(m.url.clone());
+    }
+  }
+  for (referrer, texts) in &w.imports {
+    for t in texts {
+      if let MRes::Ok(u) = model_resolve(r, t, referrer, true)
+        && let Some(m) = final_of(&u)
+        && sensitive(m)
+      {
+        strict.insert(m.url.clone());
+      }
+    }
+  }
+  for m in &w.modules {
+    let mut texts: Vec<(String, bool, bool)> = vec![]; // (text, dynamic, json attr)
+    for it in &m.items {
+      // in a declaration file every import is a (static) type dependency
+      texts.push((
+        it.text.clone(),
+        it.form.is_dynamic() && !m.media.is_declaration(),
+        it.form.attr() == Some("json"),
+      ));
+      if let Some(dt) = &it.deno_types {
+        texts.push((dt.clone(), false, false));
+      }
+    }
+    if let Some(h) = &m.x_ts_types {
+      texts.push((h.clone(), false, false));
+    }
+    for (t, dynamic, json_attr) in texts {
+      for types in [false, true] {
+        if let MRes::Ok(u) = model_resolve(r, &t, &m.url, types)
+          && let Some(tm) = final_of(&u)
+          && sensitive(tm)
+        {
+          if tm.media == Media::Json && json_attr {
+            with_attr.insert(tm.url.clone());
+            continue; // always a JSON module
+          }
+          if tm.media == Media::Json {
+            without_attr.insert(tm.url.clone());
+          }
+          if dynamic {
+            lenient.insert(tm.url.clone());
+          } else {
+            strict.insert(tm.url.clone());
+          }
+        }
+      }
+    }
+  }
+  // anything reached from a dynamically imported module is also lenient;
+  // conservatively treat every strict reference as possibly lenient when the
+  // world has dynamic imports at all and the entry is JSON
+  let any_dynamic = w.modules.iter().any(|m| m.items.iter().any(|i| i.form.is_dynamic()));
+  if any_dynamic && strict.iter().any(|u| w.get(u).is_some_and(|m| m.media == Media::Json)) {
+    return true;
+  }
+  if with_attr.intersection(&without_attr).next().is_some() {
+    return true;
+  }
+  lenient.intersection(&strict).next().is_some()
+}
+
+fn gen_world_once(rng: &mut Rng, cfg: &GenCfg) -> GWorld {
   let remote = rng.chance(cfg.remote_bias, 10);
   let base = if remote { "https://h.test/" } else { "file:///" };
   let n = rng.range(2, cfg.max_modules.max(2));
@@ -983,6 +1088,7 @@ pub fn gen_world(rng: &mut Rng, cfg: &GenCfg) -> GWorld {
         text_for(rng, &from, &turl)
       };
       let mut forms: Vec<Form> = vec![];
+      let tmedia = if text == "bare-specifier" { Media::Ts } else { tmedia };
       if tmedia == Media::Json {
         forms.extend([Form::ImportJson, Form::ImportJson, Form::DynImportJson]);
       } else {
@@ -1021,6 +1127,7 @@ pub fn gen_world(rng: &mut Rng, cfg: &GenCfg) -> GWorld {
         continue;
       }
       let deno_types = if form.is_value()
+        && !form.is_dynamic()
         && form.attr().is_none()
         && rng.chance(1, 6)
       {
